@@ -5,8 +5,12 @@ from fibertree import Fiber, Payload, Tensor, CoordPayload
 
 
 def unbox(p):
-    while isinstance(p, Payload):
+    for _ in range(64):          # bounded: a box may (wrongly) contain itself
+        if not isinstance(p, Payload):
+            break
         p = p.value
+    else:
+        return "CYCLIC-OR-DEEPLY-NESTED-BOX"
     return p
 
 
